@@ -5,7 +5,7 @@ import LexgenModel.Proofs.CheckerSound
 import LexgenModel.Proofs.CompileLang
 import LexgenModel.Proofs.EndToEnd
 import LexgenModel.Proofs.RefRefine
-import LexgenModel.Proofs.Capstone
+import LexgenModel.Proofs.CapstoneRun
 /-!
 # C01 — Longest match with first-rule priority, recovered by backtracking
 
@@ -218,5 +218,12 @@ theorem C01_model_is_specification (items : LexerDef) (c : Compiled) (h : compil
     (st : LState σ) (hr : Ready (c.config actions width input) st) :
     next (c.config actions width input) st = specNextFull items (c.config actions width input) st :=
   next_eq_specNext items c h hok hne actions width input st hr
+
+/-- …and for whole runs: from a freshly constructed lexer, any number of calls of the model of the generated `next()` produce exactly the items (and the
+final lexer state) of the executable reference lexer of the definition — the sequence of (rule, lexeme) pairs IS the reference tokenisation. -/
+theorem C01_run_is_reference_tokenisation (items : LexerDef) (c : Compiled) (h : compileLexer items = .ok c) (hok : DefOK items) (hne : DefNE items)
+    (actions : Nat → Action σ τ ε) (width : Nat → Nat) (input : Option (List Nat)) (user : σ) (chars : List Nat) (n : Nat) :
+    runN (c.config actions width input) n (initState user chars) = specRunN items (c.config actions width input) n (initState user chars) :=
+  run_fresh_eq_spec items c h hok hne actions width input user chars n
 
 end Lexgen
